@@ -43,6 +43,18 @@ theorem expected_guarded :
     ∀ cls ∈ modelClasses, ∀ f ∈ expected cls, (cls, f) ∉ knownMissing → hasGuard cls f = true := by
   decide +kernel
 
+/-- the same for the graph classes and abstract bases the model constructors call (no exceptions) -/
+theorem support_guarded :
+    ∀ cls ∈ supportClasses, ∀ f ∈ supportExpected cls, hasGuard cls f = true := by
+  decide +kernel
+
+theorem support_rejected (cls : String) (hc : cls ∈ supportClasses) (f : Flag) (hf : f ∈ supportExpected cls)
+    (d : D) (hd : d.has f = true) : outcomeOf cls d = .valueError := by
+  have hg := support_guarded cls hc f hf
+  unfold hasGuard at hg
+  obtain ⟨g, hmem, hflag⟩ := List.any_eq_true.1 hg
+  exact outcome_valueError ⟨cls, guardsOf cls⟩ d f ⟨g, hmem, by simpa using hflag⟩ hd
+
 /-- **invalid_rejected**: for every class, every documented violation `f` (not in `knownMissing`) and
 *every* descriptor containing `f` — alone or combined with any other violations — the guards evaluate
 to `ValueError` -/
